@@ -410,7 +410,7 @@ type recGate struct {
 }
 
 func (g *recGate) WriteHeader(code int) {
-	if !g.armed || g.used {
+	if !g.armed {
 		g.ResponseWriter.WriteHeader(code)
 		return
 	}
@@ -418,6 +418,25 @@ func (g *recGate) WriteHeader(code int) {
 	g.gate()
 	g.ResponseWriter.WriteHeader(code)
 	g.ack(hack{obs: []any{"rec", code}})
+}
+
+// Write: a RecoverHandler that also sends a body; every chunk is a scheduled action
+func (g *recGate) Write(p []byte) (int, error) {
+	if !g.armed {
+		return g.ResponseWriter.Write(p)
+	}
+	g.used = true
+	g.gate()
+	n, err := g.ResponseWriter.Write(p)
+	switch {
+	case err == nil:
+		g.ack(hack{obs: []any{"wok", n}})
+	case errors.Is(err, http.ErrHandlerTimeout):
+		g.ack(hack{obs: []any{"wto"}, wto: true})
+	default:
+		g.ack(hack{obs: []any{"werr"}})
+	}
+	return n, err
 }
 
 // underRecover: next(recover(work)) seen from the timeout middleware, with the gate in between.
